@@ -144,10 +144,11 @@ def finiteness(ck):
     must = ["Gxx", "Gyy", "Gxy", "ENBW", "psd", "asd", "ps", "csd", "Gyx", "Hxy", "Hyx", "coh", "ccoh", "cs", "tf", "cf", "cf_rad", "cf_deg", "GyyCx", "GyyRx", "GyySx",
             "Gxx_dev", "Gyy_dev", "Gxx_error", "Gyy_error", "XY_emp_var", "XY_emp_dev", "Gxx_emp_dev", "Gxy_emp_dev"]
     cnt = 0
-    for _ in range(n):
+    kinds_all = ["zeros", "constant", "xzero", "yzero", "identical", "tiny", "huge", "normal", "tiny90", "tiny120", "huge85", "mixed"]
+    for it_ in range(max(n, len(kinds_all))):
         N = ck.rng.choice([200, 512])
         g = np.random.default_rng(ck.rng.randint(0, 2 ** 31))
-        kind = ck.rng.choice(["zeros", "constant", "xzero", "yzero", "identical", "tiny", "huge", "normal"])
+        kind = kinds_all[it_ % len(kinds_all)]
         x = g.standard_normal(N); y = g.standard_normal(N)
         if kind == "zeros": x[:] = 0; y[:] = 0
         elif kind == "constant": x[:] = 4.0; y[:] = -2.0
@@ -156,6 +157,10 @@ def finiteness(ck):
         elif kind == "identical": y = x.copy()
         elif kind == "tiny": x *= 1e-150; y *= 1e-150
         elif kind == "huge": x *= 1e120; y *= 1e120
+        elif kind == "tiny90": x *= 1e-90; y *= 1e-90
+        elif kind == "tiny120": x *= 1e-120; y *= 1e-120
+        elif kind == "huge85": x *= 1e85; y *= 1e85
+        elif kind == "mixed": x *= 1e-130; y *= 1e-40
         for cross in (False, True):
             kw = dict(Jdes=10, Kdes=3, order=ck.rng.choice([-1, 0, 1, 2]), scheduler=ck.rng.choice(["ltf", "vectorized_ltf"]), win="hann", backend=ck.rng.choice(["numba", "numpy"]))
             with np.errstate(all="ignore"):
